@@ -180,6 +180,23 @@ fn build_from_tape(data: &[u16], st: &mut Stats) -> Option<Setup> {
             killers.push(m);
         }
     }
+    // promotion families: distinct legal moves that share both squares. Make the hash move one
+    // member and remember its siblings, so that any comparison on squares alone shows.
+    let mut hash = hash;
+    let family_heads: Vec<Move> = legal.iter().copied().filter(|m| m.promotion() == Some(PromotionPieceKind::Queen)).collect();
+    let mut family_counter: Option<Move> = None;
+    if !family_heads.is_empty() && t.pick(2) == 0 {
+        let head = family_heads[t.pick(family_heads.len())];
+        let family: Vec<Move> = legal.iter().copied().filter(|m| m.src() == head.src() && m.dst() == head.dst()).collect();
+        hash = Some(family[t.pick(family.len())]);
+        let nsib = 1 + t.pick(2);
+        for _ in 0..nsib {
+            killers.push(family[t.pick(family.len())]);
+        }
+        if t.pick(2) == 0 {
+            family_counter = Some(family[t.pick(family.len())]);
+        }
+    }
     let nc = t.pick(3);
     let mut counter = vec![];
     for i in 0..nc {
@@ -187,6 +204,9 @@ fn build_from_tape(data: &[u16], st: &mut Stats) -> Option<Setup> {
         if let (Some(k), Some(m)) = (key, pool(&mut t)) {
             counter.push((k, m));
         }
+    }
+    if let (Some(p), Some(m)) = (prev, family_counter) {
+        counter.push((p, m));
     }
     let nh = if t.pick(3) == 0 { 0 } else { t.pick(40) };
     let mut history = vec![];
@@ -266,6 +286,11 @@ fn check(s: &Setup, st: &mut Stats) -> Result<(), Fail> {
             .any(|m| m.is_capture() && !m.is_en_passant() && !crate::engine::see::see(&s.game, *m, crate::engine::eval::Eval(0)));
         if s.hash.is_some() {
             st.class("hash_move");
+        }
+        if let Some(h) = s.hash {
+            if [k0, k1, cm].iter().flatten().any(|m| *m != h && m.src() == h.src() && m.dst() == h.dst() && legal.contains(m)) {
+                st.class("remembered_move_shares_squares_with_hash_move");
+            }
         }
         if k0.is_some() && k0 == s.hash {
             st.class("killer1_is_hash_move");
